@@ -211,26 +211,26 @@ Print Assumptions agrees_with_C12_start_span.
    RandomIdGenerator the ids written in the operations stand for what it returns and are assumed FRESH when drawn
    (non-zero, different from the span id / trace id of every span so far: [oracle_fresh]) - the checker then also
    demands freshness of what the implementation shows (the fresh_ids clauses). *)
-Theorem model_meets_spec_oracles : forall cf n ops, samp_ok cf -> oracle_fresh cf (world0 n) ops ->
-  spec_case cf ops (run_case cf n ops) = [].
+Theorem model_meets_spec_oracles : forall cf n ops, samp_ok cf -> threads_ok n ops -> oracle_fresh cf (world0 n) ops ->
+  spec_case cf n ops (run_case cf n ops) = [].
 Proof. exact ProofsMeets.model_meets_spec_oracles. Qed.
 Print Assumptions model_meets_spec_oracles.
 
-Theorem model_meets_spec_any_sampler : forall cf n ops, samp_ok cf -> cf_defgen cf = false ->
-  spec_case cf ops (run_case cf n ops) = [].
+Theorem model_meets_spec_any_sampler : forall cf n ops, samp_ok cf -> threads_ok n ops -> cf_defgen cf = false ->
+  spec_case cf n ops (run_case cf n ops) = [].
 Proof. exact ProofsMeets.model_meets_spec_any_sampler. Qed.
 Print Assumptions model_meets_spec_any_sampler.
 
 (* ... in particular for every configuration a case file can describe: the built-in samplers of C12 (always on/off,
    ratio, parent-based), the scripted one, ParentBased around either; enabled or disabled tracer; IsRandom or not *)
-Theorem model_meets_spec : forall enabled random s n ops,
-  spec_case (cfg_of enabled random s) ops (run_case (cfg_of enabled random s) n ops) = [].
+Theorem model_meets_spec : forall enabled random s n ops, threads_ok n ops ->
+  spec_case (cfg_of enabled random s) n ops (run_case (cfg_of enabled random s) n ops) = [].
 Proof. exact ProofsMeets.model_meets_spec. Qed.
 Print Assumptions model_meets_spec.
 
-Theorem model_meets_spec_default_generator : forall enabled s n ops,
+Theorem model_meets_spec_default_generator : forall enabled s n ops, threads_ok n ops ->
   oracle_fresh (cfg_of_default enabled s) (world0 n) ops ->
-  spec_case (cfg_of_default enabled s) ops (run_case (cfg_of_default enabled s) n ops) = [].
+  spec_case (cfg_of_default enabled s) n ops (run_case (cfg_of_default enabled s) n ops) = [].
 Proof. exact ProofsMeets.model_meets_spec_default_generator. Qed.
 Print Assumptions model_meets_spec_default_generator.
 
